@@ -191,7 +191,7 @@ func ruleR17_14(w *World, r *Report) {
 	if u == nil {
 		return
 	}
-	r.Rule("R17.14", "every filter clause built from a field table (schema.XDocFields.F) compares that field with a value of the kind the document struct XDoc declares for it (numbers of any width compare by value; a string, a number, a boolean and a date never equal each other), so a clause with the wrong kind matches nothing (a purge that deletes nothing, a lookup that never finds)", 15)
+	r.Rule("R17.14", "every filter clause built from a field table (schema.XDocFields.F) compares that field with a value of the kind the document struct XDoc declares for it (numbers of any width compare by value; a string, a number, a boolean and a date never equal each other), so a clause with the wrong kind matches nothing (a purge that deletes nothing, a lookup that never finds)", 8)
 	n := 0
 	for _, fn := range u.ordaFuncs(func(p string) bool { return p == pMongo || p == pService || p == pSnapshot }) {
 		for _, c := range callsIn(fn) {
@@ -248,7 +248,7 @@ func ruleR17_14(w *World, r *Report) {
 				"the clause compares "+strings.TrimSuffix(g.Name(), "Fields")+"."+fname+" ("+ftype.String()+") with a value of type "+val.Type().String()+": no stored document matches, the query silently finds or deletes nothing")
 		}
 	}
-	if n < 15 {
+	if n < 8 { // 16 of the 21 clauses name their field directly; refactorings move some behind a parameter or a table
 		r.Lost(fmt.Sprintf("filter clauses over field tables (found %d)", n))
 	}
 }
